@@ -414,6 +414,13 @@ class C13(PropCheck):
         n = r.choice([1, 2, 2, 3, 4, 5, 8, r.randint(1, 14)])
         xs = self._values(n, r.random() < 0.3)
         xs = [v if abs(v) < 100 else v / 1000.0 for v in xs]
+        if not malformed and n >= 2 and r.random() < 0.25:
+            # wave 4: a sample far from the origin relative to its spread (|mean| / sd up to 1e8, e.g. a concentrated SMC
+            # population of a parameter of order 1e6): the definition is evaluated exactly on these floats by the model, a
+            # sum-of-squares ("one pass") evaluation loses eps * (mean / sd)^2 of the digits
+            off = r.choice([1e4, 1e6, -1e6, 1e8])
+            xs = [off + r.uniform(-1, 1) for _ in range(n)]
+            self.bump('stat offset |mean|/sd >= 1e4')
         wstyle = r.choice(['none', 'equal', 'ints', 'grid', 'full', 'one_nonzero'])
         if wstyle == 'none':
             ws = None
